@@ -94,8 +94,12 @@ impl V {
 
 const VARS: [&str; 5] = ["a", "b", "c", "d", "e"];
 const SUBJ_VAR: usize = 99;
+/// registers 99, 98, 97 are the subject locals `s`, `t`, `u`
 fn var_name(i: usize) -> &'static str {
-    if i == SUBJ_VAR { "s" } else { VARS[i] }
+    if i >= 97 { SUBJ_NAMES[SUBJ_VAR - i] } else { VARS[i] }
+}
+fn is_subj_var(i: usize) -> bool {
+    i >= 97
 }
 
 #[derive(Clone, Debug, PartialEq)]
@@ -357,7 +361,7 @@ impl MatchCase {
                 s.push_str(&format!("    {}{} then {}\n", alts.join(" or "), guard, body));
             }
         }
-        s.push_str(&format!("  (r, tr, {}, s)\n", VARS.join(", ")));
+        s.push_str(&format!("  (r, tr, {}, {})\n", VARS.join(", "), params.join(", ")));
         s.push_str(&format!(
             "h = |{p}|\n  try\n    f {p}\n  catch err\n    ('E', \"{{err}}\")\nh\n",
             p = params.join(", ")
@@ -393,8 +397,15 @@ impl MatchCase {
             .collect();
         format!("arms {} {} {}", VARS.len(), mode, arms.join(" "))
     }
+    /// the shape of F-C03-2: the subject is a bare local and a pattern binds its name
     fn binds_subject(&self) -> bool {
         self.mode == Mode::Var && self.arms.iter().any(|a| a.vars().contains(&SUBJ_VAR))
+    }
+    fn nsubj(&self) -> usize {
+        match self.mode {
+            Mode::Multi(k) => k,
+            _ => 1,
+        }
     }
 }
 
@@ -436,7 +447,7 @@ fn classify_error(msg: &str) -> String {
 }
 
 /// canonical outcome of one call of `h`: same text as the driver's algorithmic answer
-fn impl_outcome(ret: &KValue, with_subj: bool) -> (String, Option<String>) {
+fn impl_outcome(ret: &KValue, nsubj: usize) -> (String, Option<String>) {
     let KValue::Tuple(t) = ret else {
         return (format!("E:shape:{}", kvh::canon::value(ret)), None);
     };
@@ -448,13 +459,10 @@ fn impl_outcome(ret: &KValue, with_subj: bool) -> (String, Option<String>) {
             }
         }
     }
-    if d.len() != 2 + VARS.len() + 1 {
+    if d.len() != 2 + VARS.len() + nsubj {
         return (format!("E:shape:{}", kvh::canon::value(ret)), None);
     }
-    let mut regs: Vec<String> = d[2..2 + VARS.len()].iter().map(kvh::canon::value).collect();
-    if with_subj {
-        regs.push(kvh::canon::value(&d[2 + VARS.len()]));
-    }
+    let regs: Vec<String> = d[2..].iter().map(kvh::canon::value).collect();
     let trace: Vec<String> = match &d[1] {
         KValue::List(l) => l
             .data()
@@ -530,7 +538,7 @@ impl Ctx {
             panic!("driver rejected arms: {} -> {}", mc.request(), resp);
         }
         let early = resp.contains("early=1");
-        let with_subj = mc.mode == Mode::Var;
+        let nsubj = mc.nsubj();
         let mut koto = Koto::default();
         let h = match koto.compile_and_run(script.as_str()) {
             Ok(h) => h,
@@ -562,12 +570,15 @@ impl Ctx {
             self.rep.bump("sets_with_F-C03-3_shape");
         }
         if mc.binds_subject() {
-            self.rep.bump("sets_with_F-C03-2_shape");
+            self.rep.bump("sets_match_local_binding_its_name");
+        }
+        if mc.arms.iter().any(|a| a.vars().iter().any(|x| is_subj_var(*x))) {
+            self.rep.bump("sets_binding_a_subject_name");
         }
         // F-C03-2 shapes on a string subject additionally read outside the overwritten slice
         // (StringSlice::with_bounds checks the parent string, not the slice: C15's territory)
         let filtered: Vec<Vec<V>>;
-        let subjects: &[Vec<V>] = if mc.binds_subject() {
+        let subjects: &[Vec<V>] = if mc.binds_subject() && self.open.iter().any(|x| x == "F-C03-2") {
             filtered = subjects.iter().filter(|vs| !matches!(vs[0], V::S(_))).cloned().collect();
             &filtered
         } else {
@@ -582,7 +593,7 @@ impl Ctx {
             let args: Vec<KValue> = vs.iter().map(|v| self.imp.value(v)).collect();
             let ret = koto.call_function(h.clone(), args.as_slice());
             let (code_impl, body) = match &ret {
-                Ok(v) => impl_outcome(v, with_subj),
+                Ok(v) => impl_outcome(v, nsubj),
                 Err(e) => (format!("E:host:{}", e.to_string().lines().next().unwrap_or("")), None),
             };
             let (model_code, guide) = match resp.split_once(" ; ") {
@@ -613,7 +624,7 @@ impl Ctx {
                 self.rep.sample(json!({"arms": mc.request(), "subject": reqs_key(vs), "impl": code_impl, "model": model_code, "guide": guide}));
             }
             // (D) on the implementation: guide verdict
-            let d_ok = guide_agrees(&code_impl, &guide, with_subj);
+            let d_ok = guide_agrees(&code_impl, &guide);
             // body sees the same bindings as are visible after the match
             let body_ok = match (&body, code_impl.starts_with('A')) {
                 (Some(b), true) => {
@@ -625,7 +636,7 @@ impl Ctx {
                             let want: Vec<String> = arm
                                 .vars()
                                 .iter()
-                                .map(|x| if *x == SUBJ_VAR { regs[VARS.len()].clone() } else { regs[*x].clone() })
+                                .map(|x| if is_subj_var(*x) { regs[VARS.len() + (SUBJ_VAR - *x)].clone() } else { regs[*x].clone() })
                                 .collect();
                             want.join(" ") == *b
                         }
@@ -707,7 +718,7 @@ fn split_vals(s: &str) -> Vec<String> {
 }
 
 /// guide verdict `GA<i> n:val…` / `GN` against the implementation's outcome text
-fn guide_agrees(code_impl: &str, guide: &str, _with_subj: bool) -> bool {
+fn guide_agrees(code_impl: &str, guide: &str) -> bool {
     if guide == "GN" {
         return code_impl.starts_with("N ");
     }
@@ -722,7 +733,7 @@ fn guide_agrees(code_impl: &str, guide: &str, _with_subj: bool) -> bool {
     for t in &toks[1..] {
         let Some((n, v)) = t.split_once(':') else { return false };
         let n: usize = n.parse().unwrap_or(usize::MAX);
-        let idx = if n == SUBJ_VAR { 1 + VARS.len() } else { 1 + n };
+        let idx = if n != usize::MAX && is_subj_var(n) { 1 + VARS.len() + (SUBJ_VAR - n) } else { 1 + n };
         if regs.get(idx).map(|s| s.as_str()) != Some(v) {
             return false;
         }
@@ -903,10 +914,84 @@ fn systematic_cases(max_elems: usize) -> Vec<MatchCase> {
     out
 }
 
+/// same-name bindings at every pattern position: the subject local's name as tuple/list element,
+/// named rest, nested element, map rebinding, in `or` alternatives, read by the guard, and in
+/// multi-value matches (F-C03-2, repaired in /repo 65de4a1; oracle = the guide)
+fn same_name_cases() -> Vec<MatchCase> {
+    let s = SUBJ_VAR;
+    let t = SUBJ_VAR - 1;
+    let id = |x: usize| P::Id(x, None);
+    let lit = |i: i64| P::Lit(V::I(i));
+    let seq = |ps: Vec<P>| P::Seq(ps, Rest::None, vec![]);
+    let fallback = Arm { alts: vec![vec![P::Id(4, None)]], guard: None };
+    let mut singles: Vec<(Vec<Alt>, Option<G>)> = vec![
+        (vec![vec![seq(vec![id(s), id(1)])]], None),
+        (vec![vec![seq(vec![id(0), id(s)])]], None),
+        (vec![vec![seq(vec![id(s), id(s)])]], None),
+        (vec![vec![seq(vec![id(0), id(s), id(1)])]], None),
+        (vec![vec![P::Seq(vec![id(s)], Rest::Named(1), vec![])]], None),
+        (vec![vec![P::Seq(vec![id(0)], Rest::Named(s), vec![])]], None),
+        (vec![vec![P::Seq(vec![], Rest::Named(s), vec![id(0)])]], None),
+        (vec![vec![P::Seq(vec![], Rest::Named(0), vec![id(s), id(1)])]], None),
+        (vec![vec![P::Seq(vec![], Rest::Named(s), vec![])]], None),
+        (vec![vec![seq(vec![seq(vec![id(s), id(0)]), id(1)])]], None),
+        (vec![vec![seq(vec![id(0), seq(vec![id(s), id(1)])])]], None),
+        (vec![vec![seq(vec![P::Seq(vec![id(s)], Rest::Anon, vec![]), id(1)])]], None),
+        (vec![vec![P::Map(vec![Ent { key: "a".into(), bind: Bind::As(s), ty: None }], None)]], None),
+        (vec![vec![P::Map(vec![Ent { key: "a".into(), bind: Bind::As(s), ty: None }, Ent { key: "b".into(), bind: Bind::Same(1), ty: None }], None)]], None),
+        (vec![vec![seq(vec![P::Map(vec![Ent { key: "a".into(), bind: Bind::As(s), ty: None }], None), id(1)])]], None),
+        (vec![vec![P::Id(s, None)]], None),
+        (vec![vec![P::Id(s, Some(Ty("Number", false)))]], None),
+        (vec![vec![P::Id(s, Some(Ty("Tuple", true)))]], None),
+        // `or` alternatives
+        (vec![vec![seq(vec![id(s), lit(0)])], vec![seq(vec![lit(0), id(s)])]], None),
+        (vec![vec![seq(vec![lit(1), id(s)])], vec![seq(vec![id(s), lit(1)])], vec![id(s)]], None),
+        (vec![vec![seq(vec![id(s), id(0), lit(1)])], vec![seq(vec![id(0), id(s)])]], None),
+        // guards reading the rebound id
+        (vec![vec![seq(vec![id(s), id(1)])]], Some(G::Eq(s, V::I(0)))),
+        (vec![vec![seq(vec![id(0), id(s)])]], Some(G::Ne(s, V::Null))),
+        (vec![vec![seq(vec![id(s), lit(0)])], vec![seq(vec![lit(0), id(s)])]], Some(G::Eq(s, V::I(1)))),
+        (vec![vec![P::Seq(vec![id(0)], Rest::Named(s), vec![])]], Some(G::Not(Box::new(G::Eq(s, V::Null))))),
+        (vec![vec![P::Id(s, None)]], Some(G::Ne(s, V::I(1)))),
+    ];
+    let mut out = vec![];
+    for (alts, guard) in singles.drain(..) {
+        for mode in [Mode::Var, Mode::Expr] {
+            // as the first arm, and after an arm that fails having written the subject's name
+            out.push(MatchCase { arms: vec![Arm { alts: alts.clone(), guard: guard.clone() }, fallback.clone()], mode, origin: "same-name" });
+            out.push(MatchCase {
+                arms: vec![
+                    Arm { alts: vec![vec![seq(vec![id(s), P::Lit(V::S("never".into()))])]], guard: None },
+                    Arm { alts: alts.clone(), guard: guard.clone() },
+                    fallback.clone(),
+                ],
+                mode,
+                origin: "same-name",
+            });
+        }
+    }
+    // multi-value matches `match s, t`
+    let multis: Vec<(Vec<Alt>, Option<G>)> = vec![
+        (vec![vec![id(t), id(s)]], None),
+        (vec![vec![seq(vec![id(s), id(t)]), id(0)]], None),
+        (vec![vec![id(s), seq(vec![id(t), id(0)])]], None),
+        (vec![vec![seq(vec![id(t), id(0)]), seq(vec![id(s), id(1)])]], None),
+        (vec![vec![id(t), lit(0)], vec![lit(0), id(t)]], Some(G::Ne(t, V::Null))),
+        (vec![vec![P::Seq(vec![id(t)], Rest::Named(s), vec![]), id(0)], vec![id(0), id(s)]], None),
+        (vec![vec![id(s), id(s)]], None),
+    ];
+    for (alts, guard) in multis {
+        out.push(MatchCase { arms: vec![Arm { alts, guard }, Arm { alts: vec![vec![P::Wild(None)]], guard: None }], mode: Mode::Multi(2), origin: "same-name" });
+    }
+    out
+}
+
 struct Gen<'a> {
     rng: &'a mut Rng,
     /// allow the shapes of the listed findings (they are attributed by cause)
     allow_quirks: bool,
+    /// F-C03-2 is recorded as fixed: subject names are ordinary pattern variables
+    subj_fixed: bool,
 }
 
 const TYPES: [&str; 9] = ["Number", "String", "Bool", "Null", "List", "Tuple", "Map", "Range", "Any"];
@@ -933,14 +1018,15 @@ impl<'a> Gen<'a> {
             None
         }
     }
-    fn var(&mut self, subj_ok: bool) -> usize {
-        if subj_ok && self.allow_quirks && self.rng.chance(1, 12) {
-            SUBJ_VAR
+    /// `nsubj` > 0: the names of the subject locals may be bound as well
+    fn var(&mut self, nsubj: usize) -> usize {
+        if nsubj > 0 && self.rng.chance(1, 8) {
+            SUBJ_VAR - self.rng.below(nsubj)
         } else {
             self.rng.below(VARS.len())
         }
     }
-    fn map_pat(&mut self, subj_ok: bool) -> P {
+    fn map_pat(&mut self, nsubj: usize) -> P {
         let n = self.rng.below(3) + if self.rng.chance(1, 8) { 0 } else { 1 };
         let mut es = vec![];
         for _ in 0..n.min(3) {
@@ -954,38 +1040,38 @@ impl<'a> Gen<'a> {
             let bind = match (same, self.rng.below(3)) {
                 (Some(x), 0) => Bind::Same(x),
                 (_, 1) => Bind::Ignore,
-                _ => Bind::As(self.var(subj_ok)),
+                _ => Bind::As(self.var(nsubj)),
             };
             es.push(Ent { key: key.into(), bind, ty: self.ty() });
         }
         P::Map(es, self.ty())
     }
     /// `in_nonlast_pos`: this pattern is followed by further patterns in its list
-    fn pat(&mut self, depth: usize, subj_ok: bool) -> P {
+    fn pat(&mut self, depth: usize, nsubj: usize) -> P {
         let w: [u32; 5] = if depth == 0 { [4, 4, 3, 2, 0] } else { [3, 3, 2, 2, 5] };
         match self.rng.weighted(&w) {
             0 => P::Lit(self.lit()),
             1 => {
-                let v = self.var(subj_ok);
+                let v = self.var(nsubj);
                 P::Id(v, self.ty())
             }
             2 => P::Wild(self.ty()),
-            3 => self.map_pat(subj_ok),
-            _ => self.seq(depth - 1, subj_ok),
+            3 => self.map_pat(nsubj),
+            _ => self.seq(depth - 1, nsubj),
         }
     }
-    fn seq(&mut self, depth: usize, subj_ok: bool) -> P {
+    fn seq(&mut self, depth: usize, nsubj: usize) -> P {
         let n = 1 + self.rng.below(3);
-        let els: Vec<P> = (0..n).map(|_| self.pat(depth, subj_ok)).collect();
+        let els: Vec<P> = (0..n).map(|_| self.pat(depth, nsubj)).collect();
         match self.rng.below(5) {
             0 | 1 => P::Seq(els, Rest::None, vec![]),
             2 => {
-                let r = if self.rng.chance(1, 2) { Rest::Anon } else { Rest::Named(self.var(subj_ok)) };
+                let r = if self.rng.chance(1, 2) { Rest::Anon } else { Rest::Named(self.var(nsubj)) };
                 let k = if self.rng.chance(1, 6) { 0 } else { els.len() };
                 P::Seq(els[..k].to_vec(), r, vec![])
             }
             3 => {
-                let r = if self.rng.chance(1, 2) { Rest::Anon } else { Rest::Named(self.var(subj_ok)) };
+                let r = if self.rng.chance(1, 2) { Rest::Anon } else { Rest::Named(self.var(nsubj)) };
                 P::Seq(vec![], r, els)
             }
             _ => P::Seq(els, Rest::None, vec![]),
@@ -1021,7 +1107,18 @@ impl<'a> Gen<'a> {
             4 => Mode::Multi(2),
             _ => Mode::Multi(if self.rng.chance(1, 3) { 3 } else { 2 }),
         };
-        let subj_ok = mode == Mode::Var;
+        // same-name bindings: everywhere once F-C03-2 is repaired; before that only as a quirk
+        // shape (`match <local>`), attributed by cause
+        let nsubj = if self.subj_fixed {
+            match mode {
+                Mode::Multi(k) => k,
+                _ => 1,
+            }
+        } else if mode == Mode::Var && self.allow_quirks {
+            1
+        } else {
+            0
+        };
         let n_arms = 1 + self.rng.below(4);
         let mut arms = vec![];
         for ai in 0..n_arms {
@@ -1037,12 +1134,12 @@ impl<'a> Gen<'a> {
                         if self.rng.chance(1, 10) {
                             vec![P::Wild(None)]
                         } else {
-                            (0..k).map(|_| self.pat(2, false)).collect()
+                            (0..k).map(|_| self.pat(2, nsubj)).collect()
                         }
                     }
                     _ => {
                         let d = [0, 1, 1, 2, 2, 3][self.rng.below(6)];
-                        if d == 0 { vec![self.pat(0, subj_ok)] } else { vec![self.seq(d - 1, subj_ok)] }
+                        if d == 0 { vec![self.pat(0, nsubj)] } else { vec![self.seq(d - 1, nsubj)] }
                     }
                 };
                 alts.push(alt);
@@ -1053,8 +1150,8 @@ impl<'a> Gen<'a> {
                     let mut tries = 0;
                     while !alt_early_free(&alts[k]) && tries < 20 {
                         alts[k] = match mode {
-                            Mode::Multi(n) => (0..n).map(|_| self.pat(1, false)).collect(),
-                            _ => vec![self.pat(0, subj_ok)],
+                            Mode::Multi(n) => (0..n).map(|_| self.pat(1, nsubj)).collect(),
+                            _ => vec![self.pat(0, nsubj)],
                         };
                         tries += 1;
                     }
@@ -1067,7 +1164,7 @@ impl<'a> Gen<'a> {
                 }
             }
             // the guard reads only variables bound by every alternative
-            let mut readable: Vec<usize> = (0..VARS.len()).collect();
+            let mut readable: Vec<usize> = (0..VARS.len()).chain(97..=SUBJ_VAR).collect();
             for a in &alts {
                 let mut v = vec![];
                 a.iter().for_each(|p| p.vars(&mut v));
@@ -1387,12 +1484,14 @@ fn main() {
             e.get("id").and_then(|x| x.as_str()) == Some(id) && e.get("status").and_then(|x| x.as_str()) == Some("fixed")
         })
     };
+    let subj_fixed = fixed("F-C03-2");
     let cfg_line = format!(
-        "cfg {} {} {} {}",
+        "cfg {} {} {} {} {}",
         fixed("F-C03-1") as u8,
         fixed("F-C03-3") as u8,
         fixed("F-C03-4") as u8,
-        fixed("F-C03-5") as u8
+        fixed("F-C03-5") as u8,
+        subj_fixed as u8
     );
     assert_eq!(drv.ask(&cfg_line), "ok");
     rep.extra.insert("model_cfg".into(), json!(cfg_line));
@@ -1517,6 +1616,26 @@ fn main() {
     );
     cx.rep.exhaustive = true;
 
+    // --- 2b. same-name bindings (subject local's name bound by the patterns), all subjects
+    let multi_pool_sn: Vec<Vec<V>> = {
+        let base: Vec<V> = sequences(2).into_iter().map(V::T).chain(extra.iter().take(30).cloned()).collect();
+        let mut out = vec![];
+        for a in base.iter().step_by(2) {
+            for b in base.iter().step_by(3) {
+                out.push(vec![a.clone(), b.clone()]);
+            }
+        }
+        out
+    };
+    let sn = same_name_cases();
+    for mc in &sn {
+        match mc.mode {
+            Mode::Multi(_) => cx.run_match_case(mc, &multi_pool_sn),
+            _ => cx.run_match_case(mc, &all_subjects),
+        }
+    }
+    cx.rep.extra.insert("same_name_sets".into(), json!(sn.len()));
+
     // --- 3. random pattern sets
     let n_random = if thorough { 3000 } else { 700 };
     let multi_pool: Vec<V> = {
@@ -1526,7 +1645,7 @@ fn main() {
     };
     for i in 0..n_random {
         let allow_quirks = i % 4 == 3;
-        let mc = Gen { rng: &mut rng, allow_quirks }.case();
+        let mc = Gen { rng: &mut rng, allow_quirks, subj_fixed }.case();
         let subjects: Vec<Vec<V>> = match mc.mode {
             Mode::Multi(k) => {
                 let mut out = vec![];
